@@ -984,6 +984,8 @@ rv = .false.
                     modules, imports,
                     ast.typemap.f_c_module or ast.typemap.f_module
                 )
+                # The interface imports {F_capsule_data_type} from its module.
+                fileinfo.add_f_helper("capsule_data_helper", fmt)
                 continue
             elif buf_arg == "arg_decl":
                 # Use explicit declaration from CStmt.
